@@ -170,7 +170,7 @@ var mutators = map[string][]wkey{
 	"sort.Slice": {{0, 0}}, "sort.SliceStable": {{0, 0}},
 	"slices.Sort": {{0, 0}}, "slices.SortFunc": {{0, 0}}, "slices.SortStableFunc": {{0, 0}}, "slices.Reverse": {{0, 0}},
 	"(*encoding/gob.Decoder).Decode": {{1, 0}, {1, 1}},
-	"(*image.RGBA).SetRGBA": {{0, 0}, {0, 1}}, "(*image.RGBA).Set": {{0, 0}, {0, 1}},
+	"(*image.RGBA).SetRGBA":          {{0, 0}, {0, 1}}, "(*image.RGBA).Set": {{0, 0}, {0, 1}},
 	"(*image.NRGBA).Set": {{0, 0}, {0, 1}}, "(*image.Gray).SetGray": {{0, 0}, {0, 1}},
 	"(*bytes.Buffer).Write": {{0, 0}, {0, 1}}, "(*bytes.Buffer).WriteString": {{0, 0}, {0, 1}}, "(*bytes.Buffer).WriteByte": {{0, 0}, {0, 1}}, "(*bytes.Buffer).WriteRune": {{0, 0}, {0, 1}},
 	"(*bytes.Buffer).Reset": {{0, 0}, {0, 1}}, "(*bytes.Buffer).ReadFrom": {{0, 0}, {0, 1}},
@@ -257,6 +257,7 @@ func (st *fstate) globObj(g *ssa.Global, lvl int) *obj {
 	}
 	return o
 }
+
 // fieldObj returns the sub-object for field f of an allocation object (params/globals stay field-insensitive).
 func (st *fstate) fieldObj(o *obj, f int) *obj {
 	if o.kind != kAlloc || o.base != nil {
